@@ -56,6 +56,18 @@ CHECKS["C07"] = {
     ],
 }
 
+CHECKS["C08"] = {
+    "pkg": "c08",
+    "level": "exploration",
+    "technique": "stateful property-based testing: three-way differential (ART vs RBT vs reference model) under one rapid state machine",
+    "level_text": "Thousands of random operation sequences per run drive the radix-tree buffer, the red-black-tree buffer and an independent reference model in lock-step; every observable of the property (values, tombstones, flags incl. survival across undo, Len/Size/Dirty, snapshot reads, bounded iteration both ways, flag iterators and key handles, stage inspection, value history, size limits, stale iterator) is compared pairwise. ART-vs-RBT agreement is model-free; the model pins which answer is right. Sampling, not proof.",
+    "level_note": "Trusted: the hook only exposes the unexported RBT constructor. Not compared (intentional differences between the buffers): Mem()/memory accounting, internal handle values, cache hit counters, ErrTxnTooLarge on flag-only updates.",
+    "tests": [
+        {"name": "TestBuffersModel", "quick": 8000, "thorough": 25000, "shards": 16, "timeout_q": 400},
+        {"name": "TestKeyLimit", "quick": 30, "thorough": 200, "shards": 1},
+    ],
+}
+
 # properties without a registered check, with the reason (kept current by hand)
 NOT_CLAIMED = {}
 
